@@ -717,7 +717,9 @@ func c12SeamFull(r *ev.Report) {
 }
 
 func init() {
-	for _, pid := range []string{"C01", "C02", "C03", "C04", "C05"} {
+	// C10 (any history of group operations) rests on the same layer: a field-level slip that needs a special
+	// Z produced by the formulas is reached by its histories only by brute force
+	for _, pid := range []string{"C01", "C02", "C03", "C04", "C05", "C10"} {
 		Parts[pid+"field"] = Part{pid, c12SeamLight}
 	}
 
